@@ -1746,7 +1746,13 @@ class Context:
             evs = [e for e in I.st.trace if isinstance(e, Event) and e.name == name]
             ghosts = [e for e in I.st.trace if isinstance(e, GhostSeg) and e.name == name]
             order_ = [e for e in I.st.trace if (isinstance(e, Event) or isinstance(e, GhostSeg)) and e.name == name]
-            if k is None:
+            d0_ = self.registry.externs.get(name) or {}
+            for dd_ in list(self.registry.externs.values()) + list(self.registry.opaques.values()):
+                if dd_.get('event') == name:
+                    d0_ = dd_
+            rt0_ = d0_.get('returns')
+            simple_rt_ = rt0_ is None or rt0_.name in ('Int', 'Bool', 'Opaque', 'Value', 'Str', 'Bytes', 'Latin1')
+            if k is None or (simple_rt_ and len(ghosts) == 1 and order_[0] is ghosts[0]):
                 # a symbolic index, and / or a trace whose prefix was summarised at a loop cut: the result of the k-th event is
                 # an element of a ghost sequence of results (prefix) or one of the results recorded since (case distinction)
                 d = self.registry.externs.get(name) or {}
@@ -1754,11 +1760,14 @@ class Context:
                     if dd.get('event') == name:
                         d = dd
                 rt = d.get('returns')
-                rkind = 'int' if rt is not None and rt.name == 'Int' else ('bool' if rt is not None and rt.name == 'Bool' else 'obj')
+                rkind = 'int' if rt is not None and rt.name == 'Int' else ('bool' if rt is not None and rt.name == 'Bool' else
+                                                                          ('seq' if rt is not None and rt.name in ('Str', 'Bytes', 'Latin1') else 'obj'))
                 order = [e for e in I.st.trace if (isinstance(e, Event) or isinstance(e, GhostSeg)) and e.name == name]
                 if len(ghosts) > 1 or (ghosts and order[0] is not ghosts[0]):
                     # several summarised segments (a recursive call under contract): nothing is known - an unconstrained value
                     self.qcount += 1
+                    if rkind == 'seq':
+                        return VSeq(z3.Const('missing-event-res!%d' % self.qcount, S.sort), 'bytes' if rt.name == 'Bytes' else 'str')
                     u_ = z3.Const('missing-event-res!%d' % self.qcount, T.Obj if rkind == 'obj' else z3.IntSort())
                     return VInt(u_) if rkind == 'int' else (VBool(u_ != 0) if rkind == 'bool' else VOpaque(u_, 'missing'))
 
@@ -1768,6 +1777,8 @@ class Context:
                         return I.as_int(v)
                     if rkind == 'bool':
                         return z3.If(I.truthy(v), z3.IntVal(1), z3.IntVal(0))
+                    if rkind == 'seq':
+                        return I.seq_of(v, node).t
                     return self.obj_term(I, v, node)
                 gt, L = None, z3.IntVal(0)
                 if ghosts:
@@ -1775,7 +1786,7 @@ class Context:
                     L = g.seq.th.Len(g.seq.t)
                     key = 'result'
                     if key not in g.more:
-                        th_ = T.SeqO if rkind == 'obj' else T.SeqI
+                        th_ = T.SeqO if rkind == 'obj' else (T.SeqS if rkind == 'seq' else T.SeqI)
                         g.more[key] = VSeq(I.fresh('ev_%s_res' % name.replace(':', '_').replace('.', '_'), th_.sort), 'list', th_)
                     gt = g.more[key].th.Idx(g.more[key].t, kterm)
                 t = None
@@ -1784,7 +1795,7 @@ class Context:
                     t = at if t is None else z3.If(kterm == L + idx, at, t)
                 if t is None and gt is None:
                     self.qcount += 1
-                    t = z3.Const('missing-event-res!%d' % self.qcount, T.Obj if rkind == 'obj' else z3.IntSort())
+                    t = z3.Const('missing-event-res!%d' % self.qcount, T.Obj if rkind == 'obj' else (S.sort if rkind == 'seq' else z3.IntSort()))
                 elif t is None:
                     t = gt
                 elif gt is not None:
@@ -1793,6 +1804,8 @@ class Context:
                     return VInt(t)
                 if rkind == 'bool':
                     return VBool(t != 0)
+                if rkind == 'seq':
+                    return VSeq(t, 'bytes' if rt.name == 'Bytes' else 'str')
                 return VOpaque(t, 'eventres')
             if k < 0 or k >= len(evs):
                 # no such event on this path: an unconstrained value of the declared type
